@@ -232,6 +232,24 @@ def run_case(case, ctx):
                              % (case['spec'], lc.contents(), lp.contents()),
                              {'kind': lc.kind, 'op': 'setstate', 'what': 'contents'}, recoverable=False)
             classes.append('start:spec')
+            # the hand-made shape (stale separators, unequal depth) is gone after a few writes: before the history runs,
+            # every key, every gap and both ends as a bound of minKey / maxKey / keys() and as a look-up key, side by side
+            sweep = []
+            for tok in F.domain(lc.fam, 'int'):
+                if tok is None:
+                    continue
+                sweep += [['minKey', tok], ['maxKey', tok], ['range', 'keys', tok, None, False, False],
+                          ['range', 'keys', None, tok, True, True], ['in', tok]]
+            for op in sweep:
+                gc, _, mode = _exec(lc, op)
+                gp, _, mode = _exec(lp, op)
+                if not _same(gc, gp, mode):
+                    ctx.mismatch('%r on the tree built from the state %r: C -> %s, Python -> %s'
+                                 % (op, case['spec'], _show(gc), _show(gp)),
+                                 {'kind': lc.kind, 'op': op[0], 'what': 'result', 'spec': True,
+                                  'c': H.fmt(gc) if gc[0] == 'exc' else 'ok', 'py': H.fmt(gp) if gp[0] == 'exc' else 'ok'},
+                                 recoverable=False)
+            classes.append('spec_bound_sweep')
         for i, op in enumerate(case['ops']):
             name = op[0]
             role, z = _zinfo(op)
